@@ -23,6 +23,11 @@ package main
 //        partials = <id>:<ulidMs>:<lm>,<lm>,…:<iterFails>;…   partial blocks (no meta.json): ULID time, LastModified of
 //                   their objects, whether the attribute listing fails; markedIds = ids passed as deletionMarkBlocks
 //        answer: deleted=<ids ascending>           (blocks for which block.Delete was started)
+//   o.c32.e2e                                 (recorded, not asserted) a block whose Delete was interrupted after meta.json —
+//        no meta.json, deletion-mark.json still there, untouched for 3 days — goes through the real MetaFetcher +
+//        IgnoreDeletionMarkFilter and then BestEffortCleanAbortedPartialUploads(partial, filter.DeletionMarkBlocks()):
+//        the filter reads marks of blocks WITH meta.json only, so the "already scheduled for deletion" test of the
+//        partial-upload cleaner cannot see this mark; answer: partial-with-mark=<deleted|kept>
 //
 // oracle (uses the instant measured AFTER the call, so a reported violation is certain):
 //   retention-early-subsecond   marked although now ≤ MaxTime+retention, by less than 1 s, MaxTime not a whole second (F32)
@@ -113,7 +118,45 @@ func c32Meta(id ulid.ULID, res, maxT int64) *metadata.Meta {
 	}
 }
 
+func execC32E2E(c *hlib.Ctx) string {
+	ctx := context.Background()
+	logger := log.NewNopLogger()
+	bkt := objstore.NewInMemBucket()
+	id := testULID(7)
+	old := time.Now().Add(-72 * time.Hour)
+	mark, _ := json.Marshal(metadata.DeletionMark{ID: id, Version: 1, DeletionTime: old.Unix()})
+	for name, body := range map[string][]byte{
+		path.Join(id.String(), metadata.DeletionMarkFilename): mark,
+		path.Join(id.String(), block.IndexFilename):           make([]byte, 8),
+		path.Join(id.String(), block.ChunksDirname, "000001"): make([]byte, 8),
+	} {
+		must2(bkt.Upload(ctx, name, bytes.NewReader(body)))
+		must2(bkt.ChangeLastModified(name, old))
+	}
+	putCompleteBlock(bkt, testULID(8)) // a healthy block, so that the view is not empty
+	ins := objstore.WithNoopInstr(bkt)
+	filter := block.NewIgnoreDeletionMarkFilter(logger, ins, 24*time.Hour, 2)
+	mf, err := block.NewMetaFetcher(logger, 2, ins, block.NewConcurrentLister(logger, ins), "", nil, []block.MetadataFilter{filter})
+	must2(err)
+	_, partial, err := mf.Fetch(ctx)
+	must2(err)
+	counter := prometheus.NewCounter(prometheus.CounterOpts{Name: "x"})
+	compact.BestEffortCleanAbortedPartialUploads(ctx, logger, partial, bkt, counter, counter, counter, filter.DeletionMarkBlocks())
+	_, isPartial := partial[id]
+	_, inMarks := filter.DeletionMarkBlocks()[id]
+	c.Count(fmt.Sprintf("e2e:partial=%v,mark-visible-to-cleaner=%v", isPartial, inMarks))
+	if blockObjects(bkt, id) == 0 {
+		c.Count("e2e:partial-with-mark-in-bucket:deleted")
+		return "partial-with-mark=deleted"
+	}
+	c.Count("e2e:partial-with-mark-in-bucket:kept")
+	return "partial-with-mark=kept"
+}
+
 func execC32(c *hlib.Ctx, tok []string) string {
+	if len(tok) == 1 && tok[0] == "o.c32.e2e" {
+		return execC32E2E(c)
+	}
 	if len(tok) != 4 {
 		return "bad-op"
 	}
@@ -153,9 +196,9 @@ func execRet(c *hlib.Ctx, retS, blocksS string) (string, bool) {
 		shift      bool
 	}
 	type blkE struct {
-		id         int
-		res, maxT  int64
-		shift      bool
+		id        int
+		res, maxT int64
+		shift     bool
 	}
 	var rets []retE
 	for _, t := range hlib.Split(retS, ",") {
@@ -496,6 +539,7 @@ func genC32(c *hlib.Ctx) {
 	r := c.R
 	pickSub := func() int64 { return c32Subs[r.Intn(len(c32Subs))] }
 	pickSec := func() int64 { return c32Secs[r.Intn(len(c32Secs))] }
+	c.Do("o.c32.e2e", true)
 	rounds := c.N(25, 400)
 	for round := 0; round < rounds; round++ {
 		// ---- retention: three "recent" resolutions with fixed retention, ancient blocks with shifted retention
@@ -515,7 +559,7 @@ func genC32(c *hlib.Ctx) {
 				c.Count(fmt.Sprintf("ret:sub:%d", sub))
 				c.Count(fmt.Sprintf("ret:sec:%d", d))
 				// true expiry at base + d s + sub ms  (+ the sub-second part of the retention)
-				blocks = append(blocks, fmt.Sprintf("%d:%d:%d:1", id, x.res, c32Base+d*1000+sub-x.dur/1000*1000, ))
+				blocks = append(blocks, fmt.Sprintf("%d:%d:%d:1", id, x.res, c32Base+d*1000+sub-x.dur/1000*1000))
 				id++
 			}
 			// a block of a resolution that has no retention entry at all, long expired by any other measure
